@@ -219,6 +219,35 @@ class _SelfOffset:
         return "SELF_OFFSET"
 
 
+def seed_filters() -> Tuple[Doc, Dict[str, Any]]:
+    """content streams through every text-reachable filter: LZW, RunLength, ASCII85, ASCIIHex, Flate with PNG and TIFF predictors, a chain"""
+    from mc.refs import filters as F
+
+    d = Doc()
+    f1 = d.add({"Type": N("Font"), "Subtype": N("Type1"), "BaseFont": N("Helvetica")})
+
+    def piece(i: int, word: bytes) -> bytes:
+        return b"BT /F1 9 Tf 10 %d Td (%s) Tj ET\n" % (280 - 20 * i, word)
+
+    p = [piece(i, w) for i, w in enumerate([b"Lzw", b"Run", b"A85", b"Hex", b"Png", b"Tiff", b"Chain"])]
+    png_cols = len(p[4])
+    png = F.png_predict(p[4] * 2, 1, png_cols, 8, [2, 1])  # two rows: Up, Sub
+    tiff = F.tiff_predict(p[5], 1, len(p[5]))
+    streams = [
+        Stream({"Filter": N("LZWDecode")}, F.lzw_encode(p[0])),
+        Stream({"Filter": N("RunLengthDecode")}, F.rl_encode(p[1])),
+        Stream({"Filter": N("ASCII85Decode")}, F.a85_encode(p[2])),
+        Stream({"Filter": [N("ASCIIHexDecode")]}, F.ahx_encode(p[3])),
+        Stream({"Filter": N("FlateDecode"), "DecodeParms": {"Predictor": 12, "Colors": 1, "Columns": png_cols, "BitsPerComponent": 8}}, zlib.compress(png)),
+        Stream({"Filter": N("LZWDecode"), "DecodeParms": {"Predictor": 2, "Colors": 1, "Columns": len(p[5]), "BitsPerComponent": 8}}, F.lzw_encode(tiff)),
+        Stream({"Filter": [N("AHx"), N("A85"), N("Fl")], "DecodeParms": [None, None, {"Predictor": 1}]}, F.ahx_encode(F.a85_encode(zlib.compress(p[6])))),
+    ]
+    cat = _skeleton(d, b"", {"Font": {"F1": f1}})
+    page = next(o for _, o in d.objs.values() if isinstance(o, dict) and o.get("Type") == N("Page"))
+    page["Contents"] = [d.add(s) for s in streams]
+    return d, {"root": cat}
+
+
 SELF_OFFSET = _SelfOffset()  # trailer value meaning "the offset of this very cross-reference section"
 
 
@@ -323,6 +352,7 @@ SEEDS = {
     "aes128": seed_aes128,
     "aes256": seed_aes256,
     "ttf": seed_ttf,
+    "filters": seed_filters,
 }
 
 
